@@ -358,4 +358,7 @@ func c17(c *core.Ctx) {
 			c.Check(okMsg, "C17.R5", w+"|routes-request-message", ipos(c, sms[0].Instr), "routes req.Message", w+" does not route the request's message")
 		}
 	}
+	// ---- R6 a failed node's subscriptions leave the federation store (no forwarding to a dead node)
+	nodeFailKeys(c, "C17.R6")
+
 }
